@@ -1,5 +1,6 @@
 import SJ.Basic
 import SJ.Generated.GoTables
+import SJ.Model.Access
 set_option linter.unusedVariables false
 /-
 GoSem — a small imperative language with a big-step interpreter, the target of the Go→Lean translator
@@ -63,12 +64,18 @@ inductive Expr where
   | appendB (a b : Expr)                    -- `append(a, b...)` of byte slices (the new content of the slice)
   | idxB (a i : Expr)                       -- `a[i]` of a byte slice
   | nilB                                    -- `nil` as a byte slice
+  | fcmpK (op : BinOp) (a : Expr) (k : Int) -- `a <op> K`, `a` a float64 (carried as its bits), `K` an untyped integer constant
+  | f2i (a : Expr)                          -- `int64(a)`, `a` a float64
+  | f2u (a : Expr)                          -- `uint64(a)`, `a` a float64
+  | i2f (a : Expr)                          -- `float64(a)`, `a` an int64
+  | u2f (a : Expr)                          -- `float64(a)`, `a` a uint64
   deriving Repr, Inhabited
 
 inductive Stmt where
   | assign (name : String) (e : Expr)
   | tapeSet (base : String) (idx e : Expr)          -- `base.tape.Tape[idx] = e`
-  | setLen (base : String) (e : Expr)               -- `base.tape.Tape = base.tape.Tape[:e]`
+  | setLen (base : String) (e : Expr)               -- `base.tape.Tape = base.tape.Tape[:e]` (Go checks `e` against the
+                                                    -- capacity; only the length is modelled, so this is stricter)
   | copyStruct (dst src : String)                   -- `*dst = *src`
   | ite (c : Expr) (t e : List Stmt)
   | switch (e : Expr) (cases : List (List Expr × List Stmt)) (dflt : List Stmt)
@@ -183,6 +190,21 @@ def convert (ty : Ty) (a : Val) : Option Val :=
 def leU64 (b : Bytes) : UInt64 :=
   (List.range 8).foldl (fun acc k => acc ||| ((b.getD k 0).toUInt64 <<< (UInt64.ofNat (8 * k)))) 0
 
+/-- the value of `float64(K)` for an untyped integer constant `K` (Go converts the constant to the operand's type:
+    `math.MaxInt64` becomes 2^63); every such value is an integer -/
+def constAsFloat (k : Int) : Int :=
+  match F64.trunc? (F64.ofInt k) with
+  | some z => z
+  | none => k
+
+/-- IEEE comparison of a float64 (bits) with an integer-valued float; false for NaN -/
+def fcmp (op : BinOp) (b : UInt64) (k : Int) : Option Bool :=
+  match op with
+  | .ge => some (F64.geInt b k)
+  | .gt => some (F64.gtInt b k)
+  | .lt => some (F64.ltInt b k)
+  | _ => none
+
 /-- result of evaluating an expression: a value, a run-time panic, or an ill-typed tree -/
 inductive EOut where
   | val (v : Val)
@@ -254,6 +276,31 @@ def evalE (s : St) : Expr → EOut
     | .val _ => .stuck "append operand"
     | o => o
   | .nilB => .val (.bytes #[])
+  | .fcmpK op a k =>
+    match evalE s a with
+    | .val (.u64 b) => (match fcmp op b (constAsFloat k) with | some r => .val (.bool r) | none => .stuck "float comparison")
+    | .val _ => .stuck "float operand"
+    | o => o
+  | .f2i a =>
+    match evalE s a with
+    | .val (.u64 b) => .val (.int (Iter.cvtFloatToInt64 b))       -- amd64 CVTTSD2SQ, as modelled in Model/Access
+    | .val _ => .stuck "float operand"
+    | o => o
+  | .f2u a =>
+    match evalE s a with
+    | .val (.u64 b) => .val (.u64 (UInt64.ofNat (Iter.cvtFloatToUint64 b)))
+    | .val _ => .stuck "float operand"
+    | o => o
+  | .i2f a =>
+    match evalE s a with
+    | .val (.int x) => .val (.u64 (F64.ofInt x))
+    | .val _ => .stuck "int operand"
+    | o => o
+  | .u2f a =>
+    match evalE s a with
+    | .val (.u64 x) => .val (.u64 (F64.ofNat x.toNat))
+    | .val _ => .stuck "uint operand"
+    | o => o
   | .idxB a i =>
     match evalE s a with
     | .val (.bytes b) =>
